@@ -413,6 +413,10 @@ def run_history(fam, kind, impl, rng, rec, h):
             tx_events = set()
             if is_tree and minidb.embedded_but_leaf_has_oid(conn, c):
                 f34[0] = True
+                # (from here on the root's record is a stale embedded copy:
+                # whatever the writer sees after its root was evicted and
+                # reloaded is the consequence of F34)
+                ls.damaged_db_finding = 'F34'
                 rec.ev('f34-condition')
             if inline:
                 # the stored database would be F22-damaged later on
